@@ -105,6 +105,9 @@ Atomic(i) ==
          [] c.act = "Expunge" -> Expunge(c.sess, c.uid, c.set)
          [] c.act = "Noop" -> Noop(c.sess)
          [] c.act = "PopQuit" -> PopQuit(c.uids)
+         [] c.act = "Search" ->
+              /\ Search(c.sess, c.uid, c.key)
+              /\ (c.status = "OK") => (last'.found = c.found)
          [] c.act = "Append" ->
               /\ DoAppendId(c.sess, c.mbox, SeqToSet(c.flags), c.msgid)
               /\ CodeOK(c, last')
